@@ -1,8 +1,7 @@
 ---- MODULE MC_chain ----
 EXTENDS MC
-\* chain  s -> p -> q  (p copies, q = fn), plus an independent copy rule r <- s2
+\* chain  s -> p -> q  (p copies, q = fn), plus an independent copy rule r <- s2; second menu entry edits q's command
 mcOrd == <<"p", "q", "r", "s", "s2">>
-Rl(tg, src, kind, id) == [tg |-> tg, src |-> src, cl |-> <<"vcmd " \o kind \o " " \o id>>, kind |-> kind, id |-> id, omit |-> 0, mask |-> <<>>, x |-> FALSE, pf |-> FALSE]
 mcMenu == << << Rl(<<"p">>, <<"s">>, "copy", "c1"), Rl(<<"q">>, <<"p">>, "fn", "c2"), Rl(<<"r">>, <<"s2">>, "copy", "c3") >>,
              << Rl(<<"p">>, <<"s">>, "copy", "c1"), Rl(<<"q">>, <<"p">>, "fn", "c2b"), Rl(<<"r">>, <<"s2">>, "copy", "c3") >> >>
 mcInit == << <<"s", "S0">>, <<"s2", "S0">> >>
